@@ -168,6 +168,11 @@ impl Prop for C13Srv {
         let again = census(&srv).map_err(|e| Failure::new("setup_failed", e))?;
         srv.stop_term();
         if again != pre {
+            if let Ok(keep) = std::env::var("KVH_KEEP_DIR") {
+                let dst = std::path::Path::new(&keep).join(format!("case{}", std::process::id() as u64 * 1000 + shard as u64));
+                let _ = crate::common::eng::copy_dir(&root, &dst);
+                eprintln!("kept failing directory in {}", dst.display());
+            }
             return Err(Failure::new("undamaged_restart_differs", format!("a clean SIGTERM restart changed the collection: before {:?}, after {:?}", pre.keys().collect::<Vec<_>>(), again.keys().collect::<Vec<_>>())).with_sig(json!({"kind": "undamaged_restart_differs"})));
         }
         let data = srv.data_dir();
